@@ -36,12 +36,12 @@ METHOD_POOL = [
     ["Base: s", "Set1: 3", "Pause: 1x", "Mark: A", "Wait: 0.5s", ""],
     ["Base: s", "Mark: A", "Restart: 1", "Mark: B", ""],
     # a simulated value that equals the real one
-    ["Base: s", "Simulate: Level = 0 L", "Mark: S", "Wait: 0.5s", "Mark: T", ""],
+    ["Base: s", "Simulate: Out2 = 7", "Mark: S", "Wait: 0.5s", "Mark: T", ""],
 ]
 
 SWEEP_METHODS = [
     ["Base: s", "Set1: 3", "Stop: now", "Mark: B", "Wait: 0.5s", ""],
-    ["Base: s", "Simulate: Level = 0 L", "Long", "Wait: 1s", "Mark: T", ""],
+    ["Base: s", "Simulate: Out2 = 7", "Long", "Wait: 1s", "Mark: T", ""],
     ["Base: s", "Set1: 2", "Pause: 1s", "Mark: B", "Wait: 0.5s", "Mark: C", ""],
     ["Base: s", "Set1: 3", "Mark: A", "Nonsense: 1", "Mark: B", ""],
     ["Base: s", "Set1: 4", "Long", "Hold: 0.5s", "Loop1", "Wait: 0.5s", ""],
